@@ -50,10 +50,10 @@ type Ctx struct {
 	Res     *Result
 	start   time.Time
 	// Deadline after which a check should stop enumerating and report exhaustive=false.
-	Deadline time.Time
-	maxPerKey int
+	Deadline    time.Time
+	maxPerKey   int
 	sampleEvery int64
-	idx     int64 // global case index for sharding helpers
+	idx         int64 // global case index for sharding helpers
 }
 
 func NewCtx(check, tier string, seed int64, shard, nshards int, budget time.Duration) *Ctx {
